@@ -1143,6 +1143,12 @@ class DefaultControllerPlugin(ControllerPluginBase):
     def do_add(self, arg):
         names = arg.split()
 
+        if not names:
+            self.ctl.output('Error: add requires a process/group name')
+            self.ctl.exitstatus = LSBInitExitStatuses.GENERIC
+            self.help_add()
+            return
+
         supervisor = self.ctl.get_supervisor()
         for name in names:
             try:
@@ -1168,6 +1174,12 @@ class DefaultControllerPlugin(ControllerPluginBase):
 
     def do_remove(self, arg):
         names = arg.split()
+
+        if not names:
+            self.ctl.output('Error: remove requires a process/group name')
+            self.ctl.exitstatus = LSBInitExitStatuses.GENERIC
+            self.help_remove()
+            return
 
         supervisor = self.ctl.get_supervisor()
         for name in names:
